@@ -21,6 +21,7 @@ var vC06Shapes = [][][][]int{
 	{{{1}, {2, 3}}, {{1}}},
 	{{{1}, {2}}, {}},
 	{{{1, 2, 3}}, {{2}}},
+	{{{1}, {}}, {{}, {2}}}, // address-only locations (no line information) at the leaf and at the root
 }
 
 func vC06Build(shapeIdx int, names map[int]string, withMapping bool) (*Profile, map[*Function]int) {
@@ -78,6 +79,7 @@ func VerifC06FilterByName() {
 	type exp struct {
 		keep   bool
 		frames []int
+		nlocs  int
 	}
 	var want []exp
 	for sidx, sample := range shape {
@@ -85,6 +87,7 @@ func VerifC06FilterByName() {
 		nl := len(sample)
 		anyFocus, anyIgnore := false, false
 		var frames []int
+		nlocs := 0
 		for li, lf := range sample { // root-first
 			l := s.Location[nl-1-li]
 			if useFocus && locMatch(focus, l, lf) {
@@ -95,6 +98,7 @@ func VerifC06FilterByName() {
 			}
 			mapHide := useHide && l.Mapping != nil && hide.MatchString(l.Mapping.File)
 			mapShow := useShow && l.Mapping != nil && show.MatchString(l.Mapping.File)
+			left := 0
 			for _, f := range lf {
 				if useHide && (mapHide || frameMatch(hide, f)) {
 					continue
@@ -103,13 +107,23 @@ func VerifC06FilterByName() {
 					continue
 				}
 				frames = append(frames, f)
+				left++
+			}
+			if len(lf) == 0 {
+				// an address-only location has no line to hide; it goes when its
+				// mapping is hidden, and under show (nothing of it matches)
+				if !(mapHide || useShow) {
+					nlocs++
+				}
+			} else if left > 0 {
+				nlocs++
 			}
 		}
 		keep := (!useFocus || anyFocus) && !anyIgnore
-		if (useHide || useShow) && len(frames) == 0 && nl > 0 {
+		if (useHide || useShow) && nlocs == 0 && nl > 0 {
 			keep = false // a sample is dropped only when no frame is left
 		}
-		want = append(want, exp{keep, frames})
+		want = append(want, exp{keep, frames, nlocs})
 	}
 	p.FilterSamplesByName(focus, ignore, hide, show)
 	vReach("C06.byname:done")
@@ -139,6 +153,7 @@ func VerifC06FilterByName() {
 		k++
 		vAssert(len(s.Label) == 1 && s.Label["k"][0] == "v"+strconv.Itoa(sidx), "C06.byname.labels: labels of a kept sample changed")
 		vAssert(vSameInts(vC11Frames(s, ids), w.frames), "C06.byname.frames: frames of a kept sample differ from the documented hide/show result")
+		vAssert(len(s.Location) == w.nlocs, "C06.byname.locations: a location was removed (or kept) that hide/show do not select - e.g. an address-only frame")
 	}
 	vAssert(k == len(p.Sample), "C06.byname.extra: a sample the filters should drop was kept")
 	vObserve(len(p.Sample))
